@@ -482,7 +482,7 @@ Verdict0(S, pre, line, post, explained) ==
     [] OTHER ->
          [fail |-> F("C17.ephemeral", StateEph(post)) \cup drift, ex |-> {}]
 
-Verdict(S, pre, line, post, explained) ==
+VerdictCore(S, pre, line, post, explained) ==
   IF line.ev \in AEvents THEN HelperVerdict(S, pre, line, post, explained)
   ELSE IF line.ev \in UEvents THEN PubVerdict(S, pre, line, post, explained)
   ELSE IF line.ev \in REvents THEN RegVerdict(S, pre, line, post, explained)
@@ -495,6 +495,14 @@ Verdict(S, pre, line, post, explained) ==
        IF pre.nkill = 0 THEN v
        ELSE [fail |-> {IF f = "C17.noForeign" /\ ~Windowed(pre, line) THEN f ELSE ExtName(f) : f \in v.fail},
              ex |-> {IF e = "C17" THEN "ext" ELSE e : e \in v.ex}]
+
+(* C17.ephemeral on the store after EVERY line of EVERY trace, whoever acted  *)
+(* (services, helpers, publications, registrations, expiries): every presence *)
+(* node in the table has an owner session -- no persistent node is ever left   *)
+(* where a running / endpoint / identity node belongs.                        *)
+Verdict(S, pre, line, post, explained) ==
+  LET v == VerdictCore(S, pre, line, post, explained) IN
+  [fail |-> (v.fail \ {"ext.kill.ephemeral"}) \cup F("C17.ephemeral", StateEph(post)), ex |-> v.ex]
 
 TInit == /\ t \in DOMAIN Traces
          /\ i = 1
